@@ -26,6 +26,7 @@ import PV.Driver.SyntaxOps
 import PV.Driver.DispatchOps
 import PV.Driver.CseTableOps
 import PV.Driver.ParserTableOps
+import PV.Driver.CodegenOps
 /-
   Driver operations: one request S-expression in, one reply S-expression out.
 -/
@@ -224,6 +225,7 @@ def handlers : List (Sexp → Option Sexp) :=
    , handleLex
    , handleCseTable
    , handleParserTable
+   , handleCodegen
    -- HANDLERS
   ]
 
